@@ -62,14 +62,19 @@ pub enum Group {
     Control,
 }
 
+type TaskFut = Pin<Box<dyn Future<Output = ()>>>;
+
+/// Shared pieces so that a task can also be polled from inside another task's poll (C20: at a transport
+/// callback of a connection, as another thread would run there).
+#[derive(Clone)]
 pub struct Task {
     pub name: String,
     pub group: Group,
-    fut: Option<Pin<Box<dyn Future<Output = ()>>>>,
+    fut: Rc<RefCell<Option<TaskFut>>>,
     flag: Arc<TaskFlag>,
-    pub done: bool,
-    pub panicked: Option<String>,
-    pub polls: u64,
+    done: Rc<Cell<bool>>,
+    panicked: Rc<RefCell<Option<String>>>,
+    polls: Rc<Cell<u64>>,
     /// what the task said it is waiting for (set by app code, for reports)
     pub waiting: Rc<RefCell<String>>,
 }
@@ -101,8 +106,74 @@ pub enum RunEnd {
     Panicked,
 }
 
+impl Task {
+    pub fn is_done(&self) -> bool {
+        self.done.get()
+    }
+    fn runnable(&self) -> bool {
+        !self.done.get() && self.flag.woken.load(Ordering::SeqCst)
+    }
+    /// Poll once. Does nothing if the task is finished or is being polled right now (nested call).
+    fn poll_once(&self, clock: &Rc<Cell<u64>>) {
+        let fut = self.fut.borrow_mut().take();
+        let mut fut = match fut {
+            Some(f) => f,
+            None => return,
+        };
+        clock.set(clock.get() + 1);
+        self.flag.woken.store(false, Ordering::SeqCst);
+        self.polls.set(self.polls.get() + 1);
+        let waker = Waker::from(self.flag.clone());
+        let mut cx = Context::from_waker(&waker);
+        let r = std::panic::catch_unwind(std::panic::AssertUnwindSafe(|| fut.as_mut().poll(&mut cx)));
+        match r {
+            Ok(Poll::Ready(())) => {
+                self.done.set(true);
+                drop(fut);
+            }
+            Ok(Poll::Pending) => {
+                *self.fut.borrow_mut() = Some(fut);
+            }
+            Err(_) => {
+                self.done.set(true);
+                *self.panicked.borrow_mut() = Some(crate::util::take_panic().unwrap_or_else(|| "panic".into()));
+                // the future owns half-broken objects (poisoned locks): leak it
+                std::mem::forget(fut);
+            }
+        }
+    }
+}
+
+/// What a transport callback needs to run other tasks in the middle of a connection's poll.
+#[derive(Clone)]
+pub struct Nest {
+    pub registry: Rc<RefCell<Vec<Task>>>,
+    pub clock: Rc<Cell<u64>>,
+    pub depth: Rc<Cell<u32>>,
+    pub count: Rc<Cell<u64>>,
+}
+
+impl Nest {
+    /// Application tasks that are runnable right now.
+    pub fn runnable_apps(&self) -> Vec<usize> {
+        self.registry.borrow().iter().enumerate().filter(|(_, t)| t.runnable() && matches!(t.group, Group::ClientApp | Group::ServerApp) && t.fut.borrow().is_some()).map(|(i, _)| i).collect()
+    }
+    pub fn poll_nested(&self, i: usize) {
+        let t = self.registry.borrow().get(i).cloned();
+        if let Some(t) = t {
+            self.depth.set(self.depth.get() + 1);
+            self.count.set(self.count.get() + 1);
+            t.poll_once(&self.clock);
+            self.depth.set(self.depth.get() - 1);
+        }
+    }
+}
+
 pub struct Exec {
     pub tasks: Vec<Task>,
+    registry: Rc<RefCell<Vec<Task>>>,
+    nest_depth: Rc<Cell<u32>>,
+    nest_count: Rc<Cell<u64>>,
     spawn_q: Rc<RefCell<Vec<NewTask>>>,
     pub clock: Rc<Cell<u64>>,
     pub progress: Rc<Cell<u64>>,
@@ -116,6 +187,9 @@ impl Exec {
     pub fn new(sched: Vec<u32>) -> Exec {
         Exec {
             tasks: Vec::new(),
+            registry: Rc::new(RefCell::new(Vec::new())),
+            nest_depth: Rc::new(Cell::new(0)),
+            nest_count: Rc::new(Cell::new(0)),
             spawn_q: Rc::new(RefCell::new(Vec::new())),
             clock: Rc::new(Cell::new(0)),
             progress: Rc::new(Cell::new(0)),
@@ -128,26 +202,34 @@ impl Exec {
     pub fn spawner(&self) -> Spawner {
         Spawner { q: self.spawn_q.clone() }
     }
+    pub fn nest(&self) -> Nest {
+        Nest { registry: self.registry.clone(), clock: self.clock.clone(), depth: self.nest_depth.clone(), count: self.nest_count.clone() }
+    }
+    pub fn nested_polls(&self) -> u64 {
+        self.nest_count.get()
+    }
     fn absorb_spawns(&mut self) {
         let mut q = self.spawn_q.borrow_mut();
         for (name, group, fut, waiting) in q.drain(..) {
-            self.tasks.push(Task {
+            let t = Task {
                 name,
                 group,
-                fut: Some(fut),
+                fut: Rc::new(RefCell::new(Some(fut))),
                 flag: Arc::new(TaskFlag { woken: AtomicBool::new(true), wakes: AtomicU64::new(0) }),
-                done: false,
-                panicked: None,
-                polls: 0,
+                done: Rc::new(Cell::new(false)),
+                panicked: Rc::new(RefCell::new(None)),
+                polls: Rc::new(Cell::new(0)),
                 waiting,
-            });
+            };
+            self.registry.borrow_mut().push(t.clone());
+            self.tasks.push(t);
         }
     }
     pub fn unfinished(&self) -> Vec<&Task> {
-        self.tasks.iter().filter(|t| !t.done).collect()
+        self.tasks.iter().filter(|t| !t.done.get()).collect()
     }
     pub fn any_panic(&self) -> Option<(String, String)> {
-        self.tasks.iter().find_map(|t| t.panicked.clone().map(|p| (t.name.clone(), p)))
+        self.tasks.iter().find_map(|t| t.panicked.borrow().clone().map(|p| (t.name.clone(), p)))
     }
 
     /// Poll runnable tasks until none is runnable (or budget / busy loop).
@@ -163,7 +245,7 @@ impl Exec {
         let start = self.clock.get();
         loop {
             self.absorb_spawns();
-            let runnable: Vec<usize> = self.tasks.iter().enumerate().filter(|(_, t)| !t.done && t.flag.woken.load(Ordering::SeqCst)).map(|(i, _)| i).collect();
+            let runnable: Vec<usize> = self.tasks.iter().enumerate().filter(|(_, t)| t.runnable()).map(|(i, _)| i).collect();
             if runnable.is_empty() {
                 return RunEnd::Quiescent;
             }
@@ -192,7 +274,7 @@ impl Exec {
                 streak_progress = self.progress.get();
             }
             self.poll_task(i);
-            if self.tasks[i].panicked.is_some() {
+            if self.tasks[i].panicked.borrow().is_some() || (self.nest_count.get() > 0 && self.any_panic().is_some()) {
                 return RunEnd::Panicked;
             }
             if self.clock.get() % 8 == 0 {
@@ -202,46 +284,25 @@ impl Exec {
     }
 
     fn poll_task(&mut self, i: usize) {
-        self.clock.set(self.clock.get() + 1);
-        let t = &mut self.tasks[i];
-        t.flag.woken.store(false, Ordering::SeqCst);
-        t.polls += 1;
-        let waker = Waker::from(t.flag.clone());
-        let mut cx = Context::from_waker(&waker);
-        let mut fut = t.fut.take().expect("task future present");
         self.current.set(i);
-        let r = std::panic::catch_unwind(std::panic::AssertUnwindSafe(|| fut.as_mut().poll(&mut cx)));
+        let t = self.tasks[i].clone();
+        t.poll_once(&self.clock);
         self.current.set(usize::MAX);
-        match r {
-            Ok(Poll::Ready(())) => {
-                t.done = true;
-                drop(fut);
-            }
-            Ok(Poll::Pending) => {
-                t.fut = Some(fut);
-            }
-            Err(_) => {
-                t.done = true;
-                t.panicked = Some(crate::util::take_panic().unwrap_or_else(|| "panic".into()));
-                // the future owns half-broken objects (poisoned locks): leak it
-                std::mem::forget(fut);
-            }
-        }
     }
 
     /// Generous mode: re-poll every unfinished task once (spurious polls are
     /// allowed by the Future contract). Returns true if anything happened.
     pub fn repoll_all(&mut self) -> bool {
-        let before = (self.progress.get(), self.tasks.iter().filter(|t| t.done).count());
+        let before = (self.progress.get(), self.tasks.iter().filter(|t| t.done.get()).count());
         let n = self.tasks.len();
         for i in 0..n {
-            if !self.tasks[i].done {
+            if !self.tasks[i].done.get() {
                 self.poll_task(i);
             }
         }
         self.absorb_spawns();
-        let woken = self.tasks.iter().any(|t| !t.done && t.flag.woken.load(Ordering::SeqCst));
-        let after = (self.progress.get(), self.tasks.iter().filter(|t| t.done).count());
+        let woken = self.tasks.iter().any(|t| t.runnable());
+        let after = (self.progress.get(), self.tasks.iter().filter(|t| t.done.get()).count());
         woken || before != after
     }
 
@@ -251,10 +312,11 @@ impl Exec {
             // state may be poisoned: destructors of the remaining handles could panic while another
             // panic is being handled (abort). Leak everything instead.
             for t in self.tasks.iter_mut() {
-                if let Some(f) = t.fut.take() {
+                if let Some(f) = t.fut.borrow_mut().take() {
                     std::mem::forget(f);
                 }
             }
+            self.registry.borrow_mut().clear();
             let mut q = self.spawn_q.borrow_mut();
             for (_, _, f, _) in q.drain(..) {
                 std::mem::forget(f);
@@ -267,12 +329,14 @@ impl Exec {
         order.sort_by_key(|&i| if matches!(self.tasks[i].group, Group::ClientConn | Group::ServerConn) { 0 } else { 1 });
         for i in order {
             let t = &mut self.tasks[i];
-            if let Some(f) = t.fut.take() {
-                if std::panic::catch_unwind(std::panic::AssertUnwindSafe(move || drop(f))).is_err() && t.panicked.is_none() {
-                    t.panicked = Some(format!("(in destructor at teardown) {}", crate::util::take_panic().unwrap_or_default()));
+            let f = t.fut.borrow_mut().take();
+            if let Some(f) = f {
+                if std::panic::catch_unwind(std::panic::AssertUnwindSafe(move || drop(f))).is_err() && t.panicked.borrow().is_none() {
+                    *t.panicked.borrow_mut() = Some(format!("(in destructor at teardown) {}", crate::util::take_panic().unwrap_or_default()));
                 }
             }
         }
+        self.registry.borrow_mut().clear();
         let mut q = self.spawn_q.borrow_mut();
         for (_, _, f, _) in q.drain(..) {
             let _ = std::panic::catch_unwind(std::panic::AssertUnwindSafe(move || drop(f)));
